@@ -75,7 +75,7 @@ ligLoop:
 	}
 	gsub := &gtab.Info{
 		ScriptList: map[language.Tag]*gtab.Features{
-			language.MustParse("und-Latn-x-latn"): {Optional: []gtab.FeatureIndex{0}},
+			language.MustParse("und-Latn-x-latn"): {Required: 0xFFFF, Optional: []gtab.FeatureIndex{0}},
 		},
 		FeatureList: []*gtab.Feature{
 			{Tag: "liga", Lookups: []gtab.LookupIndex{0}},
